@@ -27,6 +27,7 @@ def run(F, X, rep):
     d2(F, X, rep)
     r1(F, X, rep)
     r2(F, X, rep)
+    r3(F, X, rep)
     w(F, X, rep)
     p(F, X, rep)
 
@@ -295,6 +296,22 @@ def r2(F, X, rep):
         for c in cbs:
             aw = lib.await_of_call(g, c)
             rep.ob(rid, aw is None, callee, "handler future is not awaited inline", where=c.loc, how="moved into a spawned task", detail="" if aw is None else "a handler is awaited inside the reader future: the loop stops reading (and writing replies) until it finishes, and a select cancellation aborts it")
+
+
+def r3(F, X, rep):
+    rid = "C17-R3"
+    rep.rule(rid, "the node's byte stream is read through ONE FramedRead for the whole life of the plugin (handshake and driver loop): it is constructed once and never taken apart (into_inner/into_parts/get_mut/read_buffer_mut), because bytes already read but not yet decoded live in its buffer")
+    cons = [(b, c) for b in F.code_bodies() for c in b.calls if re.match(r"^tokio_util::codec::FramedRead::(new|with_capacity)$", c.name) or c.name == "tokio_util::codec::FramedParts::new" or c.name == "tokio_util::codec::Framed::new"]
+    sites = sorted({c.loc for b, c in cons})
+    rep.anchor(rid, "FramedRead constructions", len(sites), 1)
+    rep.ob(rid, len(sites) == 1, "crate", "a single FramedRead is constructed", where=sites[1] if len(sites) > 1 else (sites[0] if sites else ""), how="%d" % len(sites),
+           detail="" if len(sites) == 1 else "%d FramedRead constructions: the bytes buffered by the first reader (the tail of the read that completed the handshake) are not seen by the second" % len(sites))
+    esc = [(b, c) for b in F.code_bodies() for c in b.calls if re.match(r"^tokio_util::codec::(FramedRead|Framed)::(into_inner|into_parts|get_mut|get_pin_mut|read_buffer_mut|get_ref)$", c.name)]
+    rep.ob(rid, not esc, "crate", "the reader is never taken apart", where=esc[0][1].loc if esc else "", how="no into_inner/into_parts/get_mut/read_buffer_mut",
+           detail="" if not esc else "%s at %s gives access to the raw input behind the reader's buffer: bytes already read but not decoded are lost or re-ordered" % (esc[0][1].name, esc[0][1].loc))
+    # positive control for the name patterns: the reader's next() exists
+    nx = [c for b in F.code_bodies() if "src/cln_plugin/" in b.span.get("f", "") for c in b.calls if c.name in ("tokio_stream::StreamExt::next", "futures::StreamExt::next") and "FramedRead" in c.full]
+    rep.anchor(rid, "StreamExt::next on the FramedRead", len(nx), 1)
 
 
 def lib_transparent():
